@@ -287,7 +287,14 @@ def coqchk(cid, timeout=1500):
     if rc == 0 and m:
         ax = [a.strip() for a in m.group(1).split() if a.strip() and a.strip() != "<none>"]
         res["axioms"] = ax
-        short = {a.replace("Coq.Logic.", "").replace("Coq.Reals.", "") for a in ax}
+        # primitive 63-bit integers / binary64 floats and their specification axioms are declared by the
+        # standard library (Coq.Floats.*, Coq.Numbers.Cyclic.Int63.*): they appear when a Props file evaluates a
+        # non-vacuity Example on the float instance; never under a property theorem (Print Assumptions decides that)
+        prim = [a for a in ax if a.startswith("Coq.Floats.") or a.startswith("Coq.Numbers.Cyclic.Int63.")]
+        res["stdlib_primitives"] = len(prim)
+        rest = [a for a in ax if a not in prim]
+        res["axioms"] = rest + (["(+ %d PrimFloat/Uint63 primitives and spec axioms of the standard library)" % len(prim)] if prim else [])
+        short = {a.replace("Coq.Logic.", "").replace("Coq.Reals.", "") for a in rest}
         bad = [a for a in short if a not in AXIOM_WHITELIST]
         clean = all(("%s: <none>" % k) in " ".join(out.split()) for k in
                     ("relying on type-in-type", "relying on unsafe (co)fixpoints", "whose positivity is assumed"))
